@@ -26,6 +26,11 @@ import (
 //          with the firing. Race reports are attributed to the pair through the @@CASE marker.
 // soak     (-race) mixed random workload: 3 connections, 6-10 API goroutines, heartbeat running, approval callbacks
 //          with a 15 ms timeout on both writable features, fixed operation count, per-goroutine progress watchdog.
+//          Behind the mixed cases 3 (thorough 15) cases of the targeted scenario writes|CleanWriteApprovalCaches-bursts|
+//          writer-reconnect|verdicts (c17Scenario, kind c17ChurnScenario): both writers write all the time with verdicts
+//          pending, an application goroutine cleans the features' per-connection approval caches in bursts and the writers'
+//          connections go and come back - an access to those maps outside the feature's lock has a window of about a
+//          microsecond per write, which only a high rate of cleanings meets.
 // deadlock (plain) the same workload at higher speed plus six targeted lock-order scenarios (the last two: writes that are
 //          approved at once || removal notifies of unrelated entities on all connections || DeviceLocal.CleanRemoteEntityCaches
 //          from an application goroutine; connections WITHOUT writer - every send fails - whose discovery replies are handled
@@ -62,6 +67,8 @@ func init() {
 			"over prior states rich/busy/sparse/churned and same/other connection variants; the operations include removal/re-addition of the BUSY local entity [1] and of entity [2] (removed state lasting a round, re-addition restoring its subscriptions/bindings/use cases/heartbeat), inbound traffic to the features of both entities, "+
 			"a discovery notify removing and re-adding the peer's busy entity [1], two writers (peer 0 on [1]/1, peer 1 on [2]/3), bindings changing hands with writes pending (also to a peer without writer), peers without writer subscribed to LoadControl and to the heartbeat's DeviceDiagnosis feature. "+
 			"Application side: handlers and callbacks marshal the payload they get (p.Data, msg.Data, m.Cmd/header/filters), retain it and marshal the retained one again; duellists do so with DataCopy results. "+
+			"The matrix ends with api.CleanWriteApprovalCaches+writer-reconnect (bursts of FeatureLocal.CleanWriteApprovalCaches for connections that are not the feature's writer and, once per world and duellist, the writer with a write pending losing its connection, coming back, binding and writing again; its preparation registers an approval callback so that writes are pending in every prior state) and hb.SetLocalFeature(running+ticked) (HeartbeatManager.SetLocalFeature on entity [1] whose 100 ms stream has ticked since the world was built: the preparation sleeps - blindly, so that no happens-before edge orders the tick - until 10 ms after the next tick). "+
+			"soak: behind the mixed cases 3 (thorough 15) cases of the scenario writes|CleanWriteApprovalCaches-bursts|writer-reconnect|verdicts under -race (300/600 iterations per worker). "+
 			"soak/deadlock: seeded random mix of the same operations on 3 connections (plus up to two connections without writer, set up by the operation that uses them) with 6-10 goroutines; "+
 			"deadlock additionally runs %d targeted scenarios x 3 (thorough 25) with 300 (1500) iterations per worker: approve|disconnect|clean, publish|handlers-calling-back|subscribe, RemoveEntity|inbound|disconnect, heartbeat|RemoveEntity|SetData, "+
 			"auto-approved-writes(k=1|2)|entity-removal-notify|CleanRemoteEntityCaches, mute-connections|healthy-connections|heartbeat-ticks. "+
@@ -77,7 +84,9 @@ func init() {
 		},
 		Parts: []rig.Part{
 			{Name: "duel", Race: true, Cases: func(t rig.Tier) int { return len(pairs) }, Run: c17DuelCase, Quiet: 45 * time.Second, Chunk: 20, Procs: 4},
-			{Name: "soak", Race: true, Cases: func(t rig.Tier) int { return map[rig.Tier]int{rig.Quick: 10, rig.Thorough: 100}[t] }, Run: c17SoakCase, Quiet: 45 * time.Second, Chunk: 1, Procs: 8, Workers: 8},
+			{Name: "soak", Race: true, Cases: func(t rig.Tier) int {
+				return map[rig.Tier]int{rig.Quick: c17SoakMixed[0] + 3, rig.Thorough: c17SoakMixed[1] + 15}[t]
+			}, Run: c17SoakCase, Quiet: 45 * time.Second, Chunk: 1, Procs: 8, Workers: 8},
 			{Name: "deadlock", Cases: func(t rig.Tier) int {
 				return map[rig.Tier]int{rig.Quick: 8 + c17Scenarios*3, rig.Thorough: 60 + c17Scenarios*25}[t]
 			}, Run: c17DeadlockCase, Quiet: 45 * time.Second, Chunk: 2, Procs: 8, Workers: 8},
@@ -100,6 +109,11 @@ func init() {
 }
 
 const c17Scenarios = 6 // targeted scenarios of the deadlock part
+
+// c17ChurnScenario is run by the soak part (-race): 3 (thorough 15) cases behind the mixed ones
+const c17ChurnScenario = 6
+
+var c17SoakMixed = [2]int{10, 100} // mixed cases of the soak part (quick, thorough)
 
 func c17Pairs(n int) [][2]int {
 	var ps [][2]int
@@ -293,6 +307,7 @@ func c17DuelCase(c *rig.Ctx) {
 			c.Count("op:"+op.name, int64(r.n))
 		}
 		c.Count("duels", 1)
+		c.Progress() // (a repetition may wait seconds for a result the opponent's disconnect made impossible)
 		if ok, _ := rig.Guard(c17OpGuard, cw.close); !ok {
 			c17Stuck(c, "teardown after pair "+name)
 		}
@@ -469,9 +484,13 @@ func c17Mixed(c *rig.Ctx, cw *c17W, what string, goroutines, total int) (int64, 
 }
 
 func c17SoakCase(c *rig.Ctx) {
+	base := runtime.NumGoroutine()
+	if n := c.Pick(c17SoakMixed[0], c17SoakMixed[1]); c.Index >= n {
+		c17Scenario(c, base, c17ChurnScenario, c.Index-n, c.Pick(300, 600))
+		return
+	}
 	total := c.Pick(3000, 6000)
 	g := 6 + c.Rand.Intn(5)
-	base := runtime.NumGoroutine()
 	cw := c17SoakWorld(c)
 	done, per := c17Mixed(c, cw, "soak", g, total)
 	if ok, _ := rig.Guard(c17OpGuard, cw.close); !ok {
@@ -519,9 +538,12 @@ func c17DeadlockCase(c *rig.Ctx) {
 		c17Report(c, fmt.Sprintf("mixed/g%d", g), done, per, cw, map[string]any{"goroutines": g, "connections": 3})
 		return
 	}
-	kind := (c.Index - nSoak) % c17Scenarios
-	round := (c.Index - nSoak) / c17Scenarios
-	iters := c.Pick(300, 1500)
+	c17Scenario(c, base, (c.Index-nSoak)%c17Scenarios, (c.Index-nSoak)/c17Scenarios, c.Pick(300, 1500))
+}
+
+// c17Scenario runs one targeted scenario: kinds 0..c17Scenarios-1 in the deadlock part (plain binary), kind
+// c17ChurnScenario in the soak part (-race binary).
+func c17Scenario(c *rig.Ctx, base, kind, round, iters int) {
 	var cw *c17W
 	if kind == 4 {
 		cw = c17Build(c, c.Tag(), 0, 3, true) // no approval policy of the soak: this scenario registers its own callbacks
@@ -560,6 +582,43 @@ func c17DeadlockCase(c *rig.Ctx) {
 				cw.lc.SetWriteApprovalTimeout(time.Duration(1+i%15) * time.Millisecond)
 				return "api.SetWriteApprovalTimeout"
 			}},
+		}
+	case c17ChurnScenario:
+		// -race only (soak part). Both writers keep writing (peer 0 on [1]/1: two policy callbacks + one that leaves the
+		// verdict to an application goroutine; peer 1 on [2]/3: verdict by message counter, 15 ms timer), so writes are pending
+		// on both features all the time, while an application goroutine calls CleanWriteApprovalCaches in bursts (connections
+		// that are not the writer, and every fourth time the writer's own entries: the per-connection maps of pending timers
+		// and counted approvals are dropped and have to be created again by the next write), the writers' connections go and
+		// come back (RemoveRemoteDeviceConnection runs the same cleaning on every feature; the new connection binds and
+		// writes again) and verdicts and approval timers use the same maps.
+		name = "writes|CleanWriteApprovalCaches-bursts|writer-reconnect|verdicts"
+		cw.ensurePushCB()
+		ws = []c17Worker{
+			{name: "writer0", steps: iters, step: func(i int) string { write(i); return "in.write.limits" }},
+			{name: "writer1", steps: iters, step: func(i int) string {
+				cw.in(1, model.CmdClassifierTypeWrite, cw.pa(1, e1a, 1), cw.lc2.Address(), true, nil, c17LimCmd(i+1))
+				return "in.write.limits"
+			}},
+			{name: "verdict", steps: iters, step: func(i int) string {
+				select {
+				case m := <-cw.pend:
+					cw.lc.ApproveOrDenyWrite(m, model.ErrorType{ErrorNumber: model.ErrorNumberType(i % 2 * 7)})
+				case <-time.After(time.Millisecond):
+				}
+				return "api.ApproveOrDenyWrite"
+			}},
+			{name: "clean", steps: iters, step: func(i int) string {
+				for n := 0; n < 16; n++ {
+					c17Rot(i+n, func() { cw.lc.CleanWriteApprovalCaches(cw.cn(1).ski) }, func() { cw.lc2.CleanWriteApprovalCaches(cw.cn(0).ski) },
+						func() { cw.lc.CleanWriteApprovalCaches(cw.cn(2).ski) }, func() { cw.lc2.CleanWriteApprovalCaches(cw.mutes[0].ski) })
+					if n%4 == 3 {
+						cw.lc.CleanWriteApprovalCaches(cw.cn(0).ski)
+						cw.lc2.CleanWriteApprovalCaches(cw.cn(1).ski)
+					}
+				}
+				return "api.CleanWriteApprovalCaches"
+			}},
+			{name: "reconnect", steps: iters / 16, step: func(i int) string { cw.reconnect(i % 2); return "soak.reconnect" }},
 		}
 	case 1:
 		// event bus: handlers that call back into the stack and (un)subscribe from inside the handler
